@@ -612,12 +612,15 @@ func (c *coordinator) removeScheduler(name string) error {
 	}
 
 	opt := c.cluster.opt
+	old := opt.GetScheduleConfig()
 	if err := c.removeOptScheduler(opt, name); err != nil {
 		log.Error("can not remove scheduler", zap.String("scheduler-name", name), errs.ZapError(err))
 		return err
 	}
 
 	if err := opt.Persist(c.cluster.storage); err != nil {
+		// the scheduler keeps running: keep it in the served configuration as well
+		opt.SetScheduleConfig(old)
 		log.Error("the option can not persist scheduler config", errs.ZapError(err))
 		return err
 	}
